@@ -3,6 +3,8 @@
 use std::process::exit;
 
 mod ops;
+mod gen_ops;
+mod arena;
 
 fn main() {
     let args: Vec<String> = std::env::args().collect();
@@ -13,6 +15,9 @@ fn main() {
     let r = match args[1].as_str() {
         "wat-roundtrip" => ops::wat_roundtrip(&args[2]),
         "op" => ops::op_roundtrip(&args[2..]),
+        "wasm-roundtrip" => ops::wasm_roundtrip(&args[2]),
+        "cf" => ops::cf_roundtrip(&args[2..]),
+        "arena" => arena::arena(&args[2..]),
         other => {
             eprintln!("unknown subcommand {other}");
             exit(2)
